@@ -111,6 +111,8 @@ pub enum ExpVariant {
     OtherMsg(BytesR),
     OtherLen(LenR),
     OtherExpander(u8),
+    /// a call outside the property's domain (tag of 256..=400 bytes), outcome ignored, panic caught
+    OutOfDomainTag(u8),
 }
 
 #[derive(Clone, Debug, Serialize, Deserialize, PartialEq, Eq, Hash)]
@@ -126,6 +128,7 @@ fn expand_seq_strategy() -> BoxedStrategy<ExpandSeq> {
         3 => msg_strategy().prop_map(ExpVariant::OtherMsg),
         3 => len_strategy().prop_map(ExpVariant::OtherLen),
         2 => (0u8..4).prop_map(ExpVariant::OtherExpander),
+        1 => any::<u8>().prop_map(ExpVariant::OutOfDomainTag),
     ];
     (expand_case_strategy(), proptest::collection::vec(v, 1..5)).prop_map(|(base, variants)| ExpandSeq { base, variants }).boxed()
 }
@@ -141,6 +144,13 @@ fn check_expand_seq(c: &ExpandSeq, info: &mut Info) -> Result<(), String> {
             ExpVariant::OtherMsg(m) => cur.msg = m.clone(),
             ExpVariant::OtherLen(l) => cur.len = l.clone(),
             ExpVariant::OtherExpander(e) => cur.expander = *e,
+            ExpVariant::OutOfDomainTag(n) => {
+                let long: Vec<u8> = (0..256 + (*n as usize * 145) / 255).map(|i| (i % 251) as u8).collect();
+                let e = expander_of(cur.expander);
+                let msg = cur.msg.build();
+                let _ = cr_panics(|| crate_expand(e, &msg, &long, 32));
+                info.class("request-after-an-out-of-domain-call");
+            }
         }
         let mut tmp = Info::default();
         check_expand(&cur, &mut tmp).map_err(|m| format!("after a related request: {}", m))?;
@@ -323,7 +333,7 @@ pub fn def() -> PropDef {
         needs_pairing: false,
         subs: vec![
             Box::new(Sub { name: "expand-message", rule: "bytes equal the RFC; requests beyond 255 blocks abort", quick: 60_000, thorough: 250_000, strategy: || boxed(expand_case_strategy()), check: check_expand }),
-            Box::new(Sub { name: "related-requests", rule: "a request followed back to back by 1..4 related requests (other tag, other message, other length, other expander, same again), each compared with the model", quick: 4_000, thorough: 100_000, strategy: || boxed(expand_seq_strategy()), check: check_expand_seq }),
+            Box::new(Sub { name: "related-requests", rule: "a request followed back to back by 1..4 related requests (other tag, other message, other length, other expander, same again), each compared with the model; out-of-domain requests (tags beyond 255 bytes) interleaved, outcome ignored", quick: 30_000, thorough: 300_000, strategy: || boxed(expand_seq_strategy()), check: check_expand_seq }),
             Box::new(Sub { name: "block-reduction", rule: "from_okm / from_ro == OS2IP(block) mod p for Fq (64), Fr (48), Fq2 (2 x 64, real first)", quick: 200_000, thorough: 1_000_000, strategy: || boxed(okm_strategy()), check: check_okm }),
             Box::new(Sub { name: "hash-to-field", rule: "hash_to_field::<Fq|Fr|Fq2, expander>(msg, dst, count) == consecutive reduced blocks of the model expansion", quick: 40_000, thorough: 150_000, strategy: || boxed(h2f_strategy()), check: check_h2f }),
             super::corpus_sub_expand(),
